@@ -48,6 +48,12 @@ Verdict ==
                  Within(Ev.dt, Add(Dec(42184, 3), FromInt(Cum(Ev.y, Ev.m))), Dec(35, 1)))
     \cup Viol("DT_JOINT", (st.k = "dt" /\ Ev.m = 1 /\ Ev.y \in JointYears /\ st.y = Ev.y - 1 /\ st.m = 12)
                  => Lt(Abs(Sub(Ev.dt, st.dt)), One))
+    \* wherever the joints of the implementation lie: no jump of a second or more between ANY two consecutive months of
+    \* 1600..2149, where every segment is a smooth function of the decimal year (before 1600 the segments are functions of
+    \* the year alone or change by more than a second per month by themselves)
+    \cup Viol("DT_NO_JUMP", (st.k = "dt" /\ Ev.y >= 1600 /\ Ev.y <= 2149
+                              /\ ((st.y = Ev.y /\ Ev.m = st.m + 1) \/ (st.y = Ev.y - 1 /\ st.m = 12 /\ Ev.m = 1)))
+                 => Lt(Abs(Sub(Ev.dt, st.dt)), One))
   [] OTHER -> {"UNKNOWN_KIND"}
 
 Advance == [k |-> Ev.k, y |-> Ev.y, m |-> Ev.m,
